@@ -3,28 +3,41 @@ package limit_test
 // C08 — rate limiters never admit more than their quota.
 // Harness injected by /verif (overlay); see /verif/DESIGN.md "C08".
 //
-// Environment shared by the three rules of this property:
+// Environment shared by the rules of this property:
 //
 //   * ONE miniredis per process, started outside every synctest bubble. Its
 //     accept loop and per-connection goroutines therefore live outside the
 //     bubbles. Everything that may start or wake such goroutines (Close,
-//     Restart, FastForward, FlushAll, direct key reads) is executed by a helper
-//     goroutine that also lives outside the bubbles; a bubble talks to it over
-//     channels created outside (blocking on them is not a durable block, so
-//     virtual time stands still meanwhile).
+//     Restart, FastForward, FlushAll) is executed by a helper goroutine that
+//     also lives outside the bubbles; a bubble talks to it over channels created
+//     outside (blocking on them is not a durable block, so virtual time stands
+//     still meanwhile).
 //   * the go-redis client of the wrapper (process-wide clientManager, pool
 //     reaper goroutine) is created outside the bubbles by a warm-up Ping.
 //   * server time (key TTLs) moves only through FastForward; caller time is
 //     data of the case; the bubble's virtual clock drives the wrapper's
 //     breaker window, go-redis' retry back-off and the limiter's monitor ticker.
+//   * a server-side pre-hook counts the EVAL commands that reach the server per
+//     first key (so "this decision was taken by Redis" is observable) and
+//     implements two deterministic kinds of outage:
+//       drop: every command received is answered by closing its connection
+//             (new connections are accepted and meet the same fate);
+//       err:  every command is answered with -LOADING (what a restarting Redis
+//             says), connections stay open.
+//     In both no pooled connection is left half-dead after recovery. A real
+//     Close/Restart of the server does leave dead connections in go-redis' pool
+//     (v8 notices a dead pooled connection only by using it, 4 attempts per
+//     command), in a number that depends on goroutine scheduling; that kind of
+//     outage is therefore judged by a separate, tolerant rule that runs last.
 
 import (
-	"fmt"
 	"sort"
 	"sync"
+	"sync/atomic"
 	"time"
 
 	"github.com/alicebob/miniredis/v2"
+	"github.com/alicebob/miniredis/v2/server"
 	"github.com/gotid/god/lib/logx"
 	"github.com/gotid/god/lib/store/redis"
 )
@@ -33,12 +46,22 @@ func init() {
 	logx.Disable()
 }
 
+const (
+	c08Up int32 = iota
+	c08Drop
+	c08Err
+)
+
 type c08Server struct {
-	mr   *miniredis.Miniredis
-	addr string
-	req  chan func()
-	ack  chan struct{}
-	down bool
+	mr     *miniredis.Miniredis
+	addr   string
+	req    chan func()
+	ack    chan struct{}
+	closed bool // real Close() in effect (helper goroutine only)
+
+	mode  atomic.Int32
+	mu    sync.Mutex
+	evals map[string]int // EVAL commands executed by the server, per KEYS[1]
 }
 
 var (
@@ -46,15 +69,37 @@ var (
 	c08Srv     *c08Server
 )
 
-// c08GetServer must be called OUTSIDE a bubble (it is, from the interpreters,
-// before kit.Bubble).
+// c08Epoch: every bubble starts here; also the origin of the caller clock
+// (the caller-supplied `now` is data of the case: epoch + milliseconds).
+var c08Epoch = time.Unix(946684800, 0)
+
+func (s *c08Server) hook(c *server.Peer, cmd string, args ...string) bool {
+	switch s.mode.Load() {
+	case c08Drop:
+		c.Close()
+		return true
+	case c08Err:
+		c.WriteError("LOADING Redis is loading the dataset in memory")
+		return true
+	}
+	if cmd == "EVAL" && len(args) >= 3 {
+		s.mu.Lock()
+		s.evals[args[2]]++
+		s.mu.Unlock()
+	}
+	return false
+}
+
+// c08GetServer must first be called OUTSIDE a bubble (it is: from the Test
+// functions and from the interpreters before kit.Bubble).
 func c08GetServer() *c08Server {
 	c08SrvOnce.Do(func() {
 		mr := miniredis.NewMiniRedis()
 		if err := mr.Start(); err != nil {
 			panic("c08: miniredis: " + err.Error())
 		}
-		s := &c08Server{mr: mr, addr: mr.Addr(), req: make(chan func()), ack: make(chan struct{})}
+		s := &c08Server{mr: mr, addr: mr.Addr(), req: make(chan func()), ack: make(chan struct{}), evals: map[string]int{}}
+		mr.Server().SetPreHook(s.hook)
 		go func() {
 			for f := range s.req {
 				f()
@@ -76,15 +121,25 @@ func (s *c08Server) do(f func()) {
 	<-s.ack
 }
 
+func (s *c08Server) restartLocked() {
+	if s.closed {
+		if err := s.mr.Restart(); err != nil {
+			panic("c08: restart: " + err.Error())
+		}
+		s.mr.Server().SetPreHook(s.hook)
+		s.closed = false
+	}
+}
+
+// reset: server up, empty, counters zero.
 func (s *c08Server) reset() {
 	s.do(func() {
-		if s.down {
-			if err := s.mr.Restart(); err != nil {
-				panic("c08: restart: " + err.Error())
-			}
-			s.down = false
-		}
+		s.restartLocked()
+		s.mode.Store(c08Up)
 		s.mr.FlushAll()
+		s.mu.Lock()
+		s.evals = map[string]int{}
+		s.mu.Unlock()
 	})
 }
 
@@ -92,74 +147,26 @@ func (s *c08Server) fastForward(d time.Duration) {
 	s.do(func() { s.mr.FastForward(d) })
 }
 
-func (s *c08Server) outage() {
+func (s *c08Server) setMode(m int32) { s.mode.Store(m) }
+
+// closeServer / restartServer: the real thing (listener and all connections closed).
+func (s *c08Server) closeServer() {
 	s.do(func() {
-		if !s.down {
+		if !s.closed {
 			s.mr.Close()
-			s.down = true
+			s.closed = true
 		}
 	})
 }
 
-func (s *c08Server) recover() {
-	s.do(func() {
-		if s.down {
-			if err := s.mr.Restart(); err != nil {
-				panic("c08: restart: " + err.Error())
-			}
-			s.down = false
-		}
-	})
+func (s *c08Server) restartServer() {
+	s.do(func() { s.restartLocked() })
 }
 
-// get reads a string key directly from the server's data (no network).
-func (s *c08Server) get(key string) (val string, ok bool) {
-	s.do(func() {
-		if !s.mr.Exists(key) {
-			return
-		}
-		v, err := s.mr.Get(key)
-		if err == nil {
-			val, ok = v, true
-		}
-	})
-	return
-}
-
-// ---- connection-pool hygiene across outages ----
-//
-// go-redis v8 keeps idle connections in a process-wide pool (the wrapper's
-// clientManager, MinIdleConns 8) and learns that a pooled connection died only
-// by using it; after a server restart an arbitrary, schedule-dependent number of
-// dead connections lingers and makes later commands fail although Redis answers.
-// That is the environment's nondeterminism, not the limiter's. The harness makes
-// it deterministic with the pool's own idle rule (a connection unused for 5
-// minutes of time.Now is dropped silently when popped): the bubble clock - which
-// the limiters only use for housekeeping (monitor ticker, breaker window, retry
-// back-off; the bucket arithmetic uses the caller-supplied `now`, which is data
-// of the case) - is moved 5 minutes past the last use of any pooled connection
-// after every recovery and, once any case had an outage, at the start of every
-// later bubble (bubbles restart at 2000-01-01, so "last use" is tracked across
-// bubbles in c08Horizon).
-
-const c08IdleSkip = 5*time.Minute + time.Second
-
-var (
-	c08Epoch   = time.Unix(946684800, 0) // every bubble starts here
-	c08Dirty   bool                      // some earlier case closed the server
-	c08Horizon time.Duration             // latest virtual instant (since c08Epoch) reached by any bubble
-)
-
-func c08EnterBubble() {
-	if c08Dirty {
-		time.Sleep(c08Horizon + c08IdleSkip)
-	}
-}
-
-func c08LeaveBubble() {
-	if d := time.Since(c08Epoch); d > c08Horizon {
-		c08Horizon = d
-	}
+func (s *c08Server) evalCount(key string) int {
+	s.mu.Lock()
+	defer s.mu.Unlock()
+	return s.evals[key]
 }
 
 func c08Classes(m map[string]bool) []string {
@@ -170,5 +177,3 @@ func c08Classes(m map[string]bool) []string {
 	sort.Strings(out)
 	return out
 }
-
-func c08Sprint(v any) string { return fmt.Sprintf("%+v", v) }
